@@ -1,5 +1,5 @@
 SPECIFICATION TSpec
 CONSTANTS
-  Vouchers = {"va", "vb"}
+  Vouchers = {"va", "vb", "vc"}
   HookReturnsAck = TRUE
 CHECK_DEADLOCK FALSE
